@@ -43,6 +43,8 @@ pub struct Gen {
     /// now and then replace the contents by a large part of the universe (size-dependent behaviour:
     /// arena growth, index arithmetic, anything with a threshold on the number of entries / nodes)
     pub flood: bool,
+    /// steps until the big bulk operation that follows a flood (0: none pending)
+    pub after_flood: usize,
 }
 
 impl Gen {
@@ -70,6 +72,7 @@ impl Gen {
             burst: Vec::new(),
             spine: Vec::new(),
             flood: false,
+            after_flood: 0,
         }
     }
 
@@ -331,7 +334,37 @@ impl Gen {
             self.rng.shuffle(&mut chain);
             self.burst = chain;
         }
+        if self.after_flood > 0 {
+            self.after_flood -= 1;
+            if self.after_flood == 0 {
+                // one bulk operation over (a large part of) the flooded trie
+                let top = {
+                    let l = self.rng.below(3) as u8;
+                    let x = self.random_uni();
+                    EP::new(x.bits, l.min(x.len)).canon()
+                };
+                let top = self.in_uni(top).unwrap_or(EP::new(0, 0));
+                let top = self.host(top);
+                return match self.rng.below(if self.is_set { 4 } else { 6 }) {
+                    0 | 1 => Op::RemoveChildren(top),
+                    2 => {
+                        let p = self.pred(m);
+                        Op::Retain(p, None)
+                    }
+                    3 => Op::Retain(Pred::Table(self.rng.next()), if self.allow_inject && self.rng.chance(1, 3) { Some(self.rng.below(m.len().max(1))) } else { None }),
+                    4 => {
+                        let t = self.tn(2 * (m.len() + 2));
+                        Op::MutTravWrite(MutTrav::ChildrenMut, top, t, self.pattern())
+                    }
+                    _ => {
+                        let t = self.tn(2 * (m.len() + 2));
+                        Op::MutTravWrite(MutTrav::IterMut, EP::new(0, 0), t, self.pattern())
+                    }
+                };
+            }
+        }
         if self.flood && self.rng.chance(1, 90) {
+            self.after_flood = 1 + self.rng.below(6);
             let keep = 2 + self.rng.below(4);
             let mut list: Vec<Item> = Vec::new();
             for k in self.uni.clone() {
